@@ -490,15 +490,22 @@ def _run(case, res, game, sim, node, peer, sm, spy, kind, typ, ops, base):
             pending["clean"] = False
         obs = state()
         if through_off and now == NS.ON:
-            res.label("power-cycle-within-one-op")  # reset with zero durations: stopped and started again, not observable
+            power_cycle_check(pre, when)  # reset with zero durations: stopped and started again inside one op
         elif through_off:
-            was_running_at_off = pre == "RUNNING"
+            # Node._shut_down_actions: "Turn off all the services in the node" / "Turn off all the applications in the node";
+            # software.rst: "service stops when node is powered off", "service turned back on when node is powered on"
+            was_running_at_off = pre in ("RUNNING", "PAUSED")
+            for v in sm.software.values():
+                bad_states = ("RUNNING", "PAUSED") if hasattr(v, "restart_duration") else ("RUNNING",)
+                if v.operating_state.name in bad_states and v is not cur():
+                    res.violate(f"software-not-turned-off-on-powered-off-node:{v.operating_state.name}",
+                                f"{when}: {v.name} is {v.operating_state.name} after the node reached OFF")
             if obs == "RUNNING":
                 res.violate(f"running-on-powered-off-node:{kind}", f"{when}: {obs} after the node reached OFF")
             else:
                 if kind == "service":
                     allowed = {"RUNNING": {"STOPPED"}, "STOPPED": {"STOPPED"}, "DISABLED": {"DISABLED"},
-                               "PAUSED": {"STOPPED", "PAUSED"}, "RESTARTING": {"STOPPED", "RESTARTING"},
+                               "PAUSED": {"STOPPED"}, "RESTARTING": {"STOPPED", "RESTARTING"},
                                "ABSENT": {"ABSENT"}}.get(pre)
                 else:
                     allowed = {"RUNNING": {"CLOSED"}, "CLOSED": {"CLOSED"}, "INSTALLING": {"INSTALLING", "CLOSED"},
@@ -519,6 +526,18 @@ def _run(case, res, game, sim, node, peer, sm, spy, kind, typ, ops, base):
         m_state = obs
         return True
 
+    def power_cycle_check(pre, when):
+        """Down and up again inside one op (reset, zero durations): turned off, then 'starting all Services and Applications'."""
+        obs = state()
+        res.label("power-cycle-within-one-op")
+        if kind == "service":
+            allowed = {"RUNNING": {"RUNNING"}, "PAUSED": {"RUNNING"}, "STOPPED": {"RUNNING", "STOPPED"}, "DISABLED": {"DISABLED"},
+                       "ABSENT": {"ABSENT"}}.get(pre)
+        else:
+            allowed = {"RUNNING": {"RUNNING", "CLOSED"}, "CLOSED": {"RUNNING", "CLOSED"}, "ABSENT": {"ABSENT"}}.get(pre)
+        if allowed and obs not in allowed:
+            res.violate(f"power-cycle-transition:{kind}:{pre}->{obs}", when)
+
     def power_request(verb, when) -> bool:
         nonlocal m_state, pending
         prev_ns, pre = node.operating_state, m_state
@@ -529,7 +548,7 @@ def _run(case, res, game, sim, node, peer, sm, spy, kind, typ, ops, base):
             return False
         if verb == "reset" and prev_ns == NS.ON and node.operating_state == NS.ON:
             # zero durations: the node went down and came up again inside the request (software stopped and started again)
-            res.label("power-cycle-within-one-op")
+            power_cycle_check(pre, when)
             if pending:
                 pending["clean"] = False
                 if state() != pending["state"]:
@@ -1077,6 +1096,31 @@ def power_transition_cases():
                            "rd": 1 if kind == "service" else None, "pd": pd, "ops": [list(o) for o in ops]}
 
 
+def plain_power_cases():
+    """Every type x every prepared software state x {shutdown, reset, node_off} x durations 0, 1, 3, nothing else interfering:
+    what the node's shut-down and start-up do to the software, inspected while OFF and after start-up."""
+    for kind, types in (("service", SERVICES), ("application", APPS)):
+        for typ in types:
+            system = typ in SYSTEM_SERVICES or typ in SYSTEM_APPS
+            if kind == "service":
+                preps = [[], [["req", "stop"]], [["req", "pause"]], [["req", "disable"]], [["req", "restart"]], [["req", "fix"]],
+                         [["req", "fix"], ["req", "pause"]], [["req", "pause"], ["req", "disable"]]]
+            else:
+                preps = [[], [["req", "close"]], [["uninstall"], ["install"]], [["req", "fix"]], [["uninstall"]],
+                         [["req", "execute"]]]
+            for pd in (0, 1, 3):
+                for n, prep in enumerate(preps):
+                    for first in (["shutdown"], ["reset"], ["node_off"]):
+                        if first == ["node_off"] and pd == 1:
+                            continue  # the macro is the same path as shutdown + ticks
+                        ops = prep + [first] + [["tick"]] * (pd + 1) + [["payload"]]
+                        if first != ["reset"]:
+                            ops += [["startup"]]
+                        ops += [["tick"]] * (pd + 1) + [["payload"], ["tick"], ["tick"], ["tick"], ["payload"]]
+                        yield {"kind": kind, "type": typ, "declare": not system, "extra": [], "listener": False,
+                               "rd": 2 if kind == "service" else None, "pd": pd, "ops": [list(o) for o in ops]}
+
+
 def interleave_cases():
     """A timed transition with one unrelated op interleaved at each position (completion tick vs interference-free baseline)."""
     for typ in SERVICES:
@@ -1162,6 +1206,7 @@ def worker(ctx: Ctx):
     enum_run(ctx, tag(interrupt_cases()), run_case)
     enum_run(ctx, tag(shared_port_cases()), run_case)
     enum_run(ctx, tag(power_transition_cases()), run_case)
+    enum_run(ctx, tag(plain_power_cases()), run_case)
     enum_run(ctx, tag(exhaustive_cases(depth)), run_case)
     ctx.extra["exhaustive"] = True
     ctx.extra["exhaustive_domain"] = (
